@@ -133,6 +133,11 @@ PREDS = {
     "rmod": lambda params: (lambda v: v != 0 and (params[0] % v) == params[1]),
     "rpow": lambda params: (lambda v: (2 ** (v & 3)) == params[0]),
     "rshift": lambda params: (lambda v: (params[0] >> (v & 7)) & 1 == 1),
+    # | ^ and & used as bitwise operators on integers (not as stand-ins for or / and), also with a non-zero left operand
+    "bitor": lambda params: (lambda v: (v | params[0]) == params[1]),
+    "rbitor": lambda params: (lambda v: (params[0] | v) & params[1] == params[1]),
+    "bitxor": lambda params: (lambda v: ((v ^ params[0]) & params[1]) != 0),
+    "ormix": lambda params: (lambda v: ((v & params[0]) | (v >> 4)) == params[1]),
 }
 
 
@@ -181,6 +186,16 @@ def mk_validator(case):
         if case.get("form") == "check":
             return C.Struct("x" / sub, C.Check((params[0] >> (C.this.x & 7)) & 1 == 1)), "check"
         return C.ExprValidator(sub, (params[0] >> (C.obj_ & 7)) & 1 == 1), "obj"
+    if p == "bitor":
+        if case.get("form") == "check":
+            return C.Struct("x" / sub, C.Check((C.this.x | params[0]) == params[1])), "check"
+        return C.ExprValidator(sub, (C.obj_ | params[0]) == params[1]), "obj"
+    if p == "rbitor":
+        return C.ExprValidator(sub, (params[0] | C.obj_) & params[1] == params[1]), "obj"
+    if p == "bitxor":
+        return C.ExprValidator(sub, ((C.obj_ ^ params[0]) & params[1]) != 0), "obj"
+    if p == "ormix":
+        return C.ExprValidator(sub, ((C.obj_ & params[0]) | (C.obj_ >> 4)) == params[1]), "obj"
     if p == "neq":
         if case.get("form") == "check":
             return C.Struct("x" / sub, C.Check(C.this.x != params[0])), "check"
@@ -364,7 +379,7 @@ def case_flags(ctx, case):
         ctx.ev()
         r = outcome(lambda: d.parse(pat))
         want = {n: (iv & v == v) for n, v in l2v.items()}
-        if r[0] != "ok" or {k: val for k, val in r[1].items() if not k.startswith("_")} != want:
+        if r[0] != "ok" or {k: val for k, val in r[1].items() if k != "_flagsenum"} != want:
             ctx.violation("flagsenum-parse", "FlagsEnum.parse(%s) = %r, table says %r" % (pat.hex(), r, want), dict(case, input=tag(pat)))
             break
         if any((iv & v) and (iv & v) != v for v in l2v.values()):
@@ -399,7 +414,7 @@ def case_flags(ctx, case):
             ctx.ev()
             if outcome(lambda: d.build(sp)) != want:
                 ctx.violation("flagsenum-build-spelling:" + how, "FlagsEnum.build(%r) != encoding of %d" % (sp, orv), dict(case, built=tag(sp) if not isinstance(sp, str) else str(sp)))
-    for unk in ("nosuch", names[0] + "|nosuch", {"nosuch": True}, {names[0]: True, "other": 1}, 1.5, None, [names[0]]):
+    for unk in ("nosuch", names[0] + "|nosuch", {"nosuch": True}, {names[0]: True, "other": 1}, 1.5, None, [names[0]], "_nosuch", names[0] + "|_nosuch", "_flagsenum"):
         ctx.ev()
         r = outcome(lambda: d.build(unk))
         if r != ("exc", "MappingError"):
@@ -655,6 +670,41 @@ def case_index(ctx, case):
     ctx.nontrivial("index", case)
 
 
+def case_const_contexts(ctx, case):
+    """one Const object whose sub-construct depends on the context, used under several contexts in turn: it always emits, and
+    only accepts, the encoding of its constant under the context of that call"""
+    import construct as C
+    forms = {"width": (lambda: C.Const(1, C.BytesInteger(C.this._params.w)), [{"w": 1}, {"w": 2}, {"w": 3}], lambda kw: (1).to_bytes(kw["w"], "big")),
+             "branch": (lambda: C.Const(1, C.IfThenElse(C.this._params.wide, C.Int16ub, C.Int8ub)), [{"wide": False}, {"wide": True}], lambda kw: b"\x00\x01" if kw["wide"] else b"\x01"),
+             "swapped": (lambda: C.Const(258, C.BytesInteger(2, swapped=C.this._params.le)), [{"le": False}, {"le": True}], lambda kw: b"\x02\x01" if kw["le"] else b"\x01\x02"),
+             "padded": (lambda: C.Const(b"AB", C.Padded(C.this._params.n, C.Bytes(2))), [{"n": 2}, {"n": 4}, {"n": 3}], lambda kw: b"AB" + bytes(kw["n"] - 2)),
+             "in-struct": (lambda: C.Struct("sig" / C.Const(7, C.BytesInteger(C.this._params.w)), "x" / C.Byte), [{"w": 1}, {"w": 3}], lambda kw: (7).to_bytes(kw["w"], "big") + b"\x09")}
+    mkd, kws, enc = forms[case["which"]]
+    d = mkd()
+    seq = kws + kws[::-1] + kws
+    for kw in seq:
+        ctx.ev()
+        want = enc(kw)
+        v = None if case["which"] != "in-struct" else {"x": 9}
+        b = outcome(lambda: d.build(v, **kw))
+        if b != ("ok", want):
+            ctx.violation("const-build-depends-on-earlier-calls:" + case["which"], "build under %r -> %r, the constant encodes to %s under this context (sequence %r)" % (kw, b, want.hex(), seq[:3]), dict(case, kw=kw))
+            return
+        r = outcome(lambda: d.parse(want, **kw))
+        if r[0] != "ok":
+            ctx.violation("const-parse-rejects-own-encoding:contexts:" + case["which"], "parse(%s) under %r -> %r" % (want.hex(), kw, r), dict(case, kw=kw))
+            return
+        for okw in kws:
+            other = enc(okw)
+            if other != want and len(other) <= len(want):
+                r2 = outcome(lambda: d.parse(other + bytes(len(want) - len(other)), **kw))
+                if r2[0] == "ok" and other + bytes(len(want) - len(other)) != want:
+                    ctx.violation("const-parse-accepts-other-encoding:contexts:" + case["which"], "parse(%s) under %r accepted" % (other.hex(), kw), dict(case, kw=kw))
+                    return
+    ctx.count("const_objects_under_several_contexts")
+    ctx.nontrivial("const-contexts", case["which"])
+
+
 def case_isolation(ctx, case):
     """What parse returns belongs to the caller: editing it in place (the way a parsed header is patched before it is built
     again) must not change what the construct accepts, returns or emits afterwards."""
@@ -735,7 +785,7 @@ def case_isolation(ctx, case):
     ctx.nontrivial("isolation", which)
 
 
-KINDS = {"isolation": case_isolation, "const": case_const, "validator": case_validator, "enum": case_enum, "enumbig": case_enum_big, "flags": case_flags,
+KINDS = {"const-contexts": case_const_contexts, "isolation": case_isolation, "const": case_const, "validator": case_validator, "enum": case_enum, "enumbig": case_enum_big, "flags": case_flags,
          "mapping": case_mapping, "error": case_error, "index": case_index}
 
 
@@ -767,22 +817,22 @@ def gen_cases(ctx):
             cases.append({"kind": "const", "sub": sub, "value": v})
         for pred, params in (("oneof", [1, 2, 3]), ("oneof", [0]), ("oneof", []), ("noneof", [0, 255 if not signed else -1]), ("noneof", []), ("even", []),
                              ("lt", [5]), ("maskeq", [0x0f, 0x03]), ("neq", [0]), ("neq", [7]), ("bitset", [0x15]), ("rsub", [100, 40]), ("rdiv", [100, 7]), ("rmod", [100, 2]),
-                             ("rpow", [4]), ("rshift", [0xa5])):
+                             ("rpow", [4]), ("rshift", [0xa5]), ("bitor", [0x0f, 0xff]), ("bitor", [0x0f, 0x1f]), ("rbitor", [0x80, 0x81]), ("bitxor", [0x55, 0x0f]), ("ormix", [0x03, 0x07])):
             for coll in ("list", "set"):
                 if coll == "set" and pred not in ("oneof", "noneof"):
                     continue
                 c = {"kind": "validator", "sub": sub, "pred": pred, "params": params, "coll": coll}
                 cases.append(c)
-            if pred in ("neq", "rshift"):
+            if pred in ("neq", "rshift", "bitor"):
                 cases.append({"kind": "validator", "sub": sub, "pred": pred, "params": params, "form": "check"})
         if not signed:
             for labels in ([["one", 1], ["two", 2], ["four", 4], ["eight", 8]], [["zero", 0]], [["a", 1], ["b", 255]], [["x", 3], ["y", 3]], [["lo", 0], ["hi", 255], ["mid", 128]]):
                 for form in ("Enum", "EnumClass"):
                     cases.append({"kind": "enum", "sub": sub, "labels": labels, "form": form})
             for labels in ([["one", 1], ["two", 2], ["four", 4], ["eight", 8]], [["r", 1], ["w", 2], ["rw", 3], ["x", 4], ["rwx", 7]], [["hi", 0xC0], ["lo", 0x03], ["bit7", 0x80]],
-                           [["a", 1]], [["none", 0], ["b", 2]]):
+                           [["a", 1]], [["none", 0], ["b", 2]], [["a", 1], ["_reserved", 0x40], ["b", 2], ["__x", 0x80]]):      # (labels may start with an underscore)
                 for form in ("FlagsEnum", "FlagsEnumClass"):
-                    if form == "FlagsEnumClass" and any(v == 0 for _, v in labels):
+                    if form == "FlagsEnumClass" and (any(v == 0 for _, v in labels) or any(n.startswith("_") for n, _ in labels)):
                         continue
                     cases.append({"kind": "flags", "sub": sub, "labels": labels, "form": form})
             cases.append({"kind": "mapping", "sub": sub, "pairs": [["a", 0], ["b", 1], [tag(b"k"), 2], [7, 200], [None, 9]]})
@@ -813,6 +863,8 @@ def gen_cases(ctx):
                 cases.append({"kind": "index", "form": form, "rep": rep_, "pred": pr})
     cases.append({"kind": "enumbig", "labels": [["one", 1], ["big", 2 ** 64]], "values": [tag(x) for x in big], "form": "Enum"})
     cases.append({"kind": "enumbig", "labels": [["one", 1]], "values": [tag(x) for x in big], "form": "FlagsEnum"})
+    for which in ("width", "branch", "swapped", "padded", "in-struct"):
+        cases.append({"kind": "const-contexts", "which": which})
     for which in ("const-list", "const-listcontainer", "const-dict", "const-container", "const-bytearray", "const-enum", "flags", "struct-both"):
         cases.append({"kind": "isolation", "which": which})
     # Error placements: singles, all ordered pairs, sampled triples
